@@ -143,6 +143,42 @@ def anchor_codes():
     return codes
 
 
+# ----------------------------------------------------------------------------- bytecode granularity (sys.monitoring)
+# CPython switches threads between bytecodes, not between source lines. For the anchor functions (and only
+# there: it is slow) INSTRUCTION events of sys.monitoring add one pre-emption point per executed instruction.
+# (settrace opcode events do not fire on 3.12.1.)
+
+_MON = {"ready": False, "tool": 3}
+
+
+def _on_instruction(code, offset):
+    sched = CURRENT[0]
+    if sched is None or not sched.bytecode or sched.abort:
+        return None
+    tid = sched.idents.get(threading.get_ident())
+    if tid is None or tid != sched.current:
+        return None
+    sched.probes["bytecode_points"] = sched.probes.get("bytecode_points", 0) + 1
+    try:
+        sched.point(tid, None, instr=(code.co_name, offset))
+    except StepBudgetExceeded:
+        pass    # the next line event of this thread raises it where the tracer is allowed to
+    return None
+
+
+def bytecode_events(codes, on):
+    mon = getattr(sys, "monitoring", None)
+    if mon is None:
+        return False
+    if not _MON["ready"]:
+        mon.use_tool_id(_MON["tool"], "verif-sim")
+        mon.register_callback(_MON["tool"], mon.events.INSTRUCTION, _on_instruction)
+        _MON["ready"] = True
+    for c in codes:
+        mon.set_local_events(_MON["tool"], c, mon.events.INSTRUCTION if on else 0)
+    return True
+
+
 class Policy:
     def __init__(self, spec, nthreads):
         self.spec = spec
@@ -249,7 +285,9 @@ class Policy:
 
 
 class Scheduler:
-    def __init__(self, policy_spec, nthreads, budget=2_000_000, anchors=None):
+    def __init__(self, policy_spec, nthreads, budget=2_000_000, anchors=None, bytecode=False):
+        self.bytecode = bytecode
+        self.idents = {}
         self.n = nthreads
         self.policy = Policy(policy_spec, nthreads)
         self.budget = budget
@@ -299,7 +337,7 @@ class Scheduler:
     def runnable(self):
         return sorted(t for t in self.alive if t not in self.blocked)
 
-    def point(self, tid, frame=None, boundary=False):
+    def point(self, tid, frame=None, boundary=False, instr=None):
         """A pre-emption point executed by the baton holder."""
         if self.abort:
             raise StepBudgetExceeded("aborted")
@@ -311,12 +349,15 @@ class Scheduler:
         in_anchor = self.anchor_depth[tid] > 0
         nxt = self.policy.choose(tid, self.vstep, self.seg_steps, in_anchor, self.runnable())
         if nxt != tid:
-            self.switch(tid, nxt, frame, boundary)
+            self.switch(tid, nxt, frame, boundary, instr)
 
-    def switch(self, me, other, frame=None, boundary=False):
+    def switch(self, me, other, frame=None, boundary=False, instr=None):
         self.segments.append([me, self.seg_steps])
         if frame is not None:
             loc = (os.path.basename(frame.f_code.co_filename), frame.f_lineno)
+        elif instr is not None:
+            loc = ("<bytecode>" + instr[0], instr[1])
+            self.probe("switch_between_bytecodes")
         else:
             loc = ("<boundary>", 0)
         self.switch_locs.append(loc)
@@ -382,6 +423,7 @@ class Scheduler:
         results = [[None] * len(p) for p in programs]
 
         def body(tid):
+            self.idents[threading.get_ident()] = tid
             self.sems[tid].acquire()
             if self.abort:
                 self.finish(tid)
@@ -412,6 +454,8 @@ class Scheduler:
                 self.finish(tid)
 
         ths = [threading.Thread(target=body, args=(t,), name=f"sim-{t}", daemon=True) for t in range(self.n)]
+        if self.bytecode:
+            self.bytecode = bytecode_events(self.anchors, True)
         CURRENT[0] = self
         for t in ths:
             t.start()
@@ -426,6 +470,8 @@ class Scheduler:
         for t in ths:
             t.join(timeout=10)
         CURRENT[0] = None
+        if self.bytecode:
+            bytecode_events(self.anchors, False)
         return results
 
     def interleaving_hash(self):
